@@ -524,8 +524,7 @@ def run(sc) -> RunResult:
                             # the injected death of the external solver reached the caller
                             res.hit("fault:failure_propagated_to_caller")
                             res.log("op", n_op, k, "failed-with-the-solver", type(e).__name__)
-                            if direct:
-                                direct_be = None  # a backend object whose call failed is not queried again
+                            # (direct configuration: the same backend object may be queried again, as after a stall)
                             continue
                         finally:
                             peer.fault_in = None
@@ -535,11 +534,15 @@ def run(sc) -> RunResult:
                             res.log("op", n_op, k, "returned-after-solver-failure")
                             continue
                         if fake_sub.stalls_fired > n_stalls_before:
-                            res.violate("C03/wrong-return-value", f"op#{n_op} {k} returned {r!r} although the external solver never replied (deadline passed) [{tag}]")
-                            continue
+                            # the query returned although one call stalled until the deadline (a retry that got a
+                            # reply is fine; a made-up answer is not): checked like any other return
+                            res.hit("stall:query_returned_after_a_stalled_call")
                         sols = [v.sol for v in vars_]
                         calls = peer.received[n_before:]
                         res.log("op", n_op, k, r, sols, len(calls))
+                        if not calls and fake_sub.stalls_fired > n_stalls_before:
+                            res.violate("C03/wrong-return-value", f"op#{n_op} {k} returned {r!r} although the external solver never replied (deadline passed, no further call) [{tag}]")
+                            continue
                         if not calls:
                             res.violate("C03/description-not-sent", f"op#{n_op} {k} returned {r!r} without handing a description to the external solver [{tag}]")
                             continue
